@@ -33,7 +33,7 @@ TIE = 1e-10
 
 def scenarios(tier):
     k = 1 if tier == "quick" else 10
-    return [("batch", 220 * k), ("stream", 200 * k)]
+    return [("batch", 330 * k), ("stream", 300 * k)]
 
 
 def gen(rng, scenario, tier):
